@@ -196,11 +196,9 @@ func checkC08Lend(ctx *Ctx, c *Case) error {
 			}
 			got[s].viewLen = viewStr(s)
 			got[s].lender = model.Canon(sd.a, sd.view)
-			if then == "clearmutate" {
-				got[s].dest = model.Canon(sd.b, sd.view)
-				if sd.b.Has(fd) {
-					got[s].dest += " [Has=true after Clear]"
-				}
+			got[s].dest = model.Canon(sd.b, sd.view)
+			if then == "clearmutate" && sd.b.Has(fd) {
+				got[s].dest += " [Has=true after Clear]"
 			}
 			return nil
 		})
@@ -239,6 +237,13 @@ func checkC08Lend(ctx *Ctx, c *Case) error {
 	}
 	if then == "clearmutate" {
 		if err := cmp("the destination after it cleared the field and the view was written again", got[sP].dest, got[sD].dest, got[sI].dest); err != nil {
+			return err
+		}
+	} else if source != "get" {
+		// whether the destination sees later writes through the argument is open
+		// for lists (dynamicpb shares, protoimpl copies the slice header) but not
+		// for maps, which every implementation shares: asserted when both agree
+		if err := cmp("the destination after later writes through the view that was passed to Set", got[sP].dest, got[sD].dest, got[sI].dest); err != nil {
 			return err
 		}
 	}
